@@ -301,6 +301,13 @@ def run(ck):
                 ck.fail_input(sig + (":job_id-key" if j == 3 else ""), what + " (scenario %d: %s)" % (j, names[j]),
                               {"kind": "chained", "scenario": j, "jobs": [cj, cj, cj[:1], collide, many][j]})
         ck.notes["chained_callback_scenarios"] = len(chained["chained"])
+    # ---- a caller cancels one pending Future: the others still complete
+    canc, cerr2 = core.run_impl(DRIVER, (), {"cancel": True}, 120)
+    if canc is None or "error" in canc:
+        ck.corr_problem("cancelled-future scenario did not complete", str(cerr2 or canc.get("error"))[-1200:])
+    else:
+        for sig, what in canc["problems"]:
+            ck.fail_input(sig, what, {"kind": "cancelled-future"})
     # ---- contexts of every accepted kind (plain, none, a collection context with one context per data element)
     kinds, kerr = core.run_impl(DRIVER, (), {"context_kinds": True}, 120)
     if kinds is None or "error" in kinds:
